@@ -61,6 +61,7 @@ type zz35Q struct {
 	bcstWant  []bool // broadcast want-have since the last cancel
 	everBlock []bool // a want-block was requested at some point
 	elided    []bool // history class: a queued cancel was taken back by a later want
+	elidedByH []bool // ... by a targeted want-have
 	merged    []bool // history class: wanted through the peer list and the broadcast list at once
 
 	recv *bswl.Wantlist // the receiver: every sent message replayed onto an empty want-list
@@ -90,6 +91,9 @@ func (q *zz35Q) producerCallOn(i, kind int) {
 	// history classes, used only to give distinct failure modes distinct assertion ids
 	if kind != 3 && q.cancelQueued(c) {
 		q.elided[i] = true // a want takes back a cancel that was queued but not yet sent
+		if kind == 1 {
+			q.elidedByH[i] = true
+		}
 	}
 	defer func() {
 		if q.peerWant[i] > 0 && q.bcstWant[i] {
@@ -204,6 +208,7 @@ func zz35NewQ(ncid int) *zz35Q {
 	q.bcstWant = make([]bool, ncid)
 	q.everBlock = make([]bool, ncid)
 	q.elided = make([]bool, ncid)
+	q.elidedByH = make([]bool, ncid)
 	q.merged = make([]bool, ncid)
 	q.supportsHave = verifrt.NondetBool("supports_have")
 	// message size limit: one entry, two entries, or practically unlimited
@@ -251,9 +256,10 @@ func (q *zz35Q) drainAndCheck() {
 			verifrt.Observe("recv_has", has)
 		}
 		if want == 0 {
-			if !q.supportsHave && q.peerWant[i] == 1 {
-				// the client's last word for this CID is a targeted want-have, which a peer without HAVE
-				// support is never sent: such a peer must not be left holding an older want either
+			if !q.supportsHave && (q.peerWant[i] == 1 || q.elidedByH[i]) {
+				// a targeted want-have is never sent to a peer without HAVE support: when it is the client's
+				// last word for the CID, or when it took back a queued cancel, such a peer must not be left
+				// holding an older want either
 				verifrt.Assert("C35.T2.cancelled-want-left-active.want-have-to-peer-without-have-support", !has)
 			} else if q.elided[i] {
 				// histories in which a queued cancel was taken back by a new want before it was sent
